@@ -19,6 +19,7 @@ EXPLANATION = (
     "exactly one retrying call whose result is inserted under its node name; (attempt-timeout-configured) every client call "
     "inside a retry loop is given the node's config.timeout itself, resolved through closure captures. Not decided: enumeration of outcome sequences "
     "as such; a broadcast worker that panics loses its entry (documented gap `if let Ok(..) = join()`)."
+    ' Wherever a future containing a retry loop is handed to a racing combinator (tokio timeout / select) the timer-won edge crosses invalidate_client.'
 )
 ASSUMPTIONS = ["Range<usize>::next yields each index once", "Client/AsyncClient report a dead connection as RepeError::Io or a decode error, never as ServerError"]
 
